@@ -3,7 +3,7 @@
 # /repo itself), run the check there, replay its first replay file on the changed tree (expect exit 1) and on
 # /repo (expect exit 0).
 seed=$1; p=$2
-cd /verif
+cd "$(dirname "$0")/.."
 wt=$(mktemp -d /tmp/rpwt.XXXXXX); rmdir "$wt"
 ev=/tmp/verif_evid_scratch_$$; mkdir -p $ev
 git -C /repo worktree add --detach "$wt" HEAD -q || exit 2
